@@ -169,6 +169,15 @@ func abstractState(w *World, s *Sched) uint64 {
 	return h
 }
 
+// poolViolation reports a context that was released twice (or handed to two
+// requests at once): the pooled contexts are shared state of C03, C09 and C10.
+func poolViolation(prop string, res *RunResult) *Violation {
+	if res.DoublePut == 0 {
+		return nil
+	}
+	return &Violation{prop, "pool", fmt.Sprintf("the context pool was misused %d time(s): a context was released although it was already free, or while no request held it, or was handed to a request while another one still held it - two requests running at the same time can receive the same context", res.DoublePut), ""}
+}
+
 // RunSequential serves the given requests one after another on one fresh
 // router, outside the scheduler, with the real pool.
 func RunSequential(sc *Scenario, reqs []*Req, bo BuildOpt) (*World, []*ReqRec) {
